@@ -2,9 +2,14 @@ import Driver.Common
 import Log4rsModel.Routing.Spec
 /-
 C01 case:   appenders(,)  rootLevel  rootRefs(,)  loggers(, of name;level;additive;refs(|))  probes(, of target;level)
-            optional 6th field failing(,): appenders whose `append` returns Err after recording the call
+            optional 6th field failing(,): appenders whose `append` returns Err after recording the call (`-` = none)
+            optional fields 7-10: the same configuration declared in another order (loggers / appender table shuffled)
 observation: per probe (,) the sequence (;) of appender names called, `~` for none; `PANIC` if `Logger::new` panicked;
-             with the 6th field: per probe  calls!errors  (errors = appender names handed to the error handler, in order)
+             with the 6th field: per probe  calls!errors  (errors = appender names handed to the error handler, in order);
+             with fields 7-10: observation of the first declaration # observation of the second
+verdict: the statement fixes which appender is called how often, not the order of the calls: multisets are compared;
+         a differing order with equal multisets is reported as the tag `call-order-differs-from-chain-order`
+         (the model observation, compared by ./check, keeps the sequence)
 -/
 namespace Driver.C01
 open Log4rs.Proto Log4rs.Routing Log4rs.Routing.Tree Driver
@@ -69,13 +74,46 @@ def configTags (cfg : Config) : List String :=
   (if cfg.loggers.any (fun l => (comps l.name).head? = some []) then ["leading-colons"] else []) ++
   (if cfg.loggers.length ≥ 4 then ["many-loggers"] else [])
 
+/-- the loggers walked for a target (C01_visited_shape) -/
+def walk (cfg : Config) (t : Name) : List (Option LoggerCfg) :=
+  visited cfg (comps t).length (effective cfg t)
+
+def hasDup (xs : List Name) : Bool := xs.length ≠ xs.eraseDups.length
+
+/-- classes of single probes; a tag is set when some probe of the case is in the class -/
 def probeTags (cfg : Config) (probes : List (Name × Nat)) : List String :=
-  (if probes.any (fun p => (effective cfg p.1).isNone) then ["to-root"] else []) ++
-  (if probes.any (fun p => match effective cfg p.1 with
-      | some l => comps l.name ≠ comps p.1 | none => false) then ["partial-match"] else []) ++
-  (if probes.any (fun p => !specEnabled cfg p.1 p.2) then ["gated"] else []) ++
-  (if probes.any (fun p => (specDeliver cfg p.1 p.2).length ≥ 3) then ["long-chain"] else []) ++
-  (if probes.any (fun p => p.1.any (· = ':') && (comps p.1).any (fun c => c.any (· = ':') || c.isEmpty)) then ["stray-colons"] else [])
+  let some_ (f : Name × Nat → Bool) (tag : String) : List String := if probes.any f then [tag] else []
+  let admitted := fun (p : Name × Nat) => specEnabled cfg p.1 p.2
+  let effLen := fun (p : Name × Nat) => match effective cfg p.1 with
+    | some l => (comps l.name).length | none => 0
+  some_ (fun p => (effective cfg p.1).isNone && admitted p) "to-root-delivered" ++
+  some_ (fun p => match effective cfg p.1 with | some l => comps l.name = comps p.1 | none => false) "exact-match" ++
+  some_ (fun p => match effective cfg p.1 with | some l => comps l.name ≠ comps p.1 | none => false) "partial-match" ++
+  some_ (fun p => !admitted p) "gated" ++
+  some_ (fun p => admitted p && specLevel cfg p.1 = p.2) "threshold-boundary" ++
+  some_ (fun p => specLevel cfg p.1 = 0) "off-threshold" ++
+  some_ (fun p => specLevel cfg p.1 ≥ 5 && p.2 = 5) "trace-admitted" ++
+  some_ (fun p => admitted p && (match effective cfg p.1 with | some l => l.appenders.isEmpty | none => false))
+    "empty-attachments" ++
+  some_ (fun p => admitted p && (specDeliver cfg p.1 p.2).isEmpty) "admitted-but-no-appender" ++
+  some_ (fun p => admitted p && (walk cfg p.1).length ≥ 3) "walk-3+" ++
+  some_ (fun p => admitted p && ((walk cfg p.1).any fun v => hasDup (attached cfg v))) "dup-within-logger" ++
+  some_ (fun p => admitted p && !((walk cfg p.1).any fun v => hasDup (attached cfg v)) &&
+      hasDup (specDeliver cfg p.1 p.2)) "dup-across-chain" ++
+  some_ (fun p => admitted p && (match (walk cfg p.1).getLast? with | some (some _) => true | _ => false))
+    "walk-cut-by-non-additive" ++
+  some_ (fun p =>
+      let c := comps p.1
+      (List.range (c.length + 1)).any fun k => effLen p < k &&
+        cfg.loggers.any fun l => (c.take k).isPrefixOf (comps l.name)) "implied-node-hit" ++
+  some_ (fun p => match effective cfg p.1 with | some l => (comps l.name).any (·.isEmpty) | none => false)
+    "empty-component-matched" ++
+  some_ (fun p => p.1.any (· = ':') && (comps p.1).any (fun c => c.any (· = ':')) && (effective cfg p.1).isSome)
+    "stray-colon-target-matched" ++
+  some_ (fun p => p.1.any (fun c => c.toNat ≥ 0x10000)) "astral-target" ++
+  some_ (fun p => p.1.any (fun c => c = ' ' || c = '\t')) "whitespace-target" ++
+  some_ (fun p => (comps p.1).length ≥ 9) "deep-target" ++
+  some_ (fun p => p.1.length ≥ 200) "long-target"
 
 def signature (cfg : Config) : String :=
   "C01/" ++ (if hasImplied cfg then "implied" else if hasNested cfg then "nested" else "flat")
@@ -83,53 +121,112 @@ def signature (cfg : Config) : String :=
 /-- with failing appenders a probe's observation is `calls!errors` -/
 def renderProbeF (r : List Name × List Name) : String := renderNames r.1 ++ "!" ++ renderNames r.2
 
-def handleWith (failing : Option (List Name)) (apps rootLevel rootRefs loggers probes implObs : String) : Answer :=
-    match decConfig apps rootLevel rootRefs loggers, mapM? decProbe (decList ',' probes) with
-    | some cfg, some probes =>
-      let fails : Name → Bool := fun a => (failing.getD []).contains a
-      let model : String :=
-        -- `deliver cfg t lvl` / `deliverF cfg fails t lvl` for every probe, building the tree once
-        match build cfg, failing with
-        | some tree, none =>
-          renderDeliveries (probes.map fun p => logNode cfg.appenders (find tree (comps p.1)) p.2)
-        | some tree, some _ =>
-          encList "," (probes.map fun p => renderProbeF (logNodeF cfg.appenders fails (find tree (comps p.1)) p.2))
-        | none, _ => "PANIC"
-      let spec :=
-        match failing with
-        | none => renderDeliveries (probes.map fun p => specDeliver cfg p.1 p.2)
-        | some _ => encList "," (probes.map fun p =>
-            renderProbeF (specDeliver cfg p.1 p.2, specFailures cfg fails p.1 p.2))
+def sortStrs (xs : List String) : List String := xs.mergeSort (fun a b => !(b < a))
+
+/-- what the statement fixes about one probe: which appender was called how often (and, with failing
+appenders, which reported how often) — the order of the calls is not part of the statement -/
+def canonProbe (s : String) : String :=
+  "!".intercalate ((splitOnChar '!' s).map fun half => ";".intercalate (sortStrs (decList ';' half)))
+
+def canonObs (s : String) : String := ",".intercalate ((decList ',' s).map canonProbe)
+
+structure Side where
+  model : String
+  ok : Bool
+  why : String
+  orderDiffers : Bool
+
+/-- model observation for one configuration, and the verdict of the statement (read on `specCfg`) on `implObs` -/
+def side (cfg specCfg : Config) (failing : Option (List Name)) (probes : List (Name × Nat)) (implObs : String) : Side :=
+  let fails : Name → Bool := fun a => (failing.getD []).contains a
+  let model : String :=
+    -- `deliver cfg t lvl` / `deliverF cfg fails t lvl` for every probe, building the tree once
+    match build cfg, failing with
+    | some tree, none =>
+      match mapM? (fun p => logNode cfg.appenders (find tree (comps p.1)) p.2) probes with
+      | some ds => renderDeliveries ds
+      | none => "PANIC"
+    | some tree, some _ =>
+      match mapM? (fun p => logNodeF cfg.appenders fails (find tree (comps p.1)) p.2) probes with
+      | some rs => encList "," (rs.map renderProbeF)
+      | none => "PANIC"
+    | none, _ => "PANIC"
+  let spec :=
+    match failing with
+    | none => renderDeliveries (probes.map fun p => specDeliver specCfg p.1 p.2)
+    | some _ => encList "," (probes.map fun p =>
+        renderProbeF (specDeliver specCfg p.1 p.2, specFailures specCfg fails p.1 p.2))
+  if canonObs implObs = canonObs spec then
+    { model, ok := true, why := "", orderDiffers := implObs ≠ spec }
+  else
+    let implParts := (decList ',' implObs).map canonProbe
+    let specParts := (decList ',' spec).map canonProbe
+    let idx := ((implParts.zip specParts).takeWhile (fun (a, b) => a = b)).length
+    let e := specParts.getD idx "?"
+    let g := implParts.getD idx "?"
+    let starved := failing.isSome && (splitOnChar '!' e).head? ≠ (splitOnChar '!' g).head?
+    { model, ok := false, orderDiffers := false,
+      why := "probe " ++ toString idx ++ " expected (as multiset) " ++ e ++ " got " ++ g ++ ";sig=" ++
+        (if starved then "C01/failing-appender-starves-others" else signature specCfg) }
+
+def failTags (cfg : Config) (failing : Option (List Name)) (probes : List (Name × Nat)) : List String :=
+  match failing with
+  | none => []
+  | some fs =>
+    let fails : Name → Bool := fun a => fs.contains a
+    (if probes.any (fun p => (specFailures cfg fails p.1 p.2).length > 0 &&
+        ((specDeliver cfg p.1 p.2).dropWhile (fun a => !fails a)).length > 1)
+      then ["failing-appender-not-last"] else []) ++
+    (if fs.isEmpty then [] else ["failing-appender"])
+
+def handleWith (failing : Option (List Name)) (apps rootLevel rootRefs loggers probes implObs : String)
+    (twin : Option (String × String × String × String)) : Answer :=
+  match decConfig apps rootLevel rootRefs loggers, mapM? decProbe (decList ',' probes) with
+  | some cfg, some probes =>
+    let tags := configTags cfg ++ probeTags cfg probes ++ failTags cfg failing probes
+    match twin with
+    | none =>
+      let a := side cfg cfg failing probes implObs
       let verdict :=
         if !validB cfg then "FAIL:generator produced an invalid configuration;sig=C01/invalid-config"
-        else if implObs = spec then "ok"
-        else
-          let implParts := decList ',' implObs
-          let specParts := decList ',' spec
-          let idx := ((implParts.zip specParts).takeWhile (fun (a, b) => a = b)).length
-          let e := specParts.getD idx "?"
-          let g := implParts.getD idx "?"
-          let starved := failing.isSome && (splitOnChar '!' e).head? ≠ (splitOnChar '!' g).head?
-          "FAIL:probe " ++ toString idx ++ " expected " ++ e ++ " got " ++ g ++ ";sig=" ++
-            (if starved then "C01/failing-appender-starves-others" else signature cfg)
-      let ftags := match failing with
-        | none => []
-        | some fs =>
-          (if probes.any (fun p => (specFailures cfg fails p.1 p.2).length > 0 &&
-              ((specDeliver cfg p.1 p.2).dropWhile (fun a => !fails a)).length > 1)
-            then ["failing-appender-not-last"] else []) ++
-          (if fs.isEmpty then [] else ["failing-appender"])
-      { model, spec := verdict, tags := configTags cfg ++ probeTags cfg probes ++ ftags }
-    | _, _ => badCase "decode"
+        else if a.ok then "ok" else "FAIL:" ++ a.why
+      { model := a.model, spec := verdict,
+        tags := tags ++ (if a.orderDiffers then ["call-order-differs-from-chain-order"] else []) }
+    | some (a', l', r', ls') =>
+      -- the same configuration declared in another order: both observations are judged by the statement read
+      -- on the FIRST declaration (the outcome must not depend on the order)
+      match decConfig a' l' r' ls', splitOnChar '#' implObs with
+      | some cfg', [obsA, obsB] =>
+        let a := side cfg cfg failing probes obsA
+        let b := side cfg' cfg failing probes obsB
+        let isTwin := cfg.loggers.isPerm cfg'.loggers && cfg.appenders.isPerm cfg'.appenders &&
+          cfg.rootLevel = cfg'.rootLevel && cfg.rootAppenders = cfg'.rootAppenders
+        let verdict :=
+          if !validB cfg then "FAIL:generator produced an invalid configuration;sig=C01/invalid-config"
+          else if !isTwin then "FAIL:generator: twin is not a reordering;sig=C01/invalid-twin"
+          else if !a.ok then "FAIL:" ++ a.why
+          else if !b.ok then "FAIL:reordered declaration: " ++ b.why ++ "-order-dependent"
+          else "ok"
+        { model := a.model ++ "#" ++ b.model, spec := verdict,
+          tags := tags ++ ["twin", if obsA = obsB then "twin-equal" else "twin-differs"] ++
+            (if sortMatters cfg' then ["declared-unsorted"] else []) ++
+            (if a.orderDiffers || b.orderDiffers then ["call-order-differs-from-chain-order"] else []) }
+      | _, _ => badCase "twin"
+  | _, _ => badCase "decode"
 
 def handle : Handler := fun cas obs =>
   match cas, obs with
   | [apps, rootLevel, rootRefs, loggers, probes], [implObs] =>
-    handleWith none apps rootLevel rootRefs loggers probes implObs
+    handleWith none apps rootLevel rootRefs loggers probes implObs none
   | [apps, rootLevel, rootRefs, loggers, probes, failing], [implObs] =>
     match decNames ',' failing with
-    | some fs => handleWith (some fs) apps rootLevel rootRefs loggers probes implObs
+    | some fs => handleWith (some fs) apps rootLevel rootRefs loggers probes implObs none
     | none => badCase "failing"
+  | [apps, rootLevel, rootRefs, loggers, probes, failing, a', l', r', ls'], [implObs] =>
+    if failing = "-" then handleWith none apps rootLevel rootRefs loggers probes implObs (some (a', l', r', ls'))
+    else match decNames ',' failing with
+      | some fs => handleWith (some fs) apps rootLevel rootRefs loggers probes implObs (some (a', l', r', ls'))
+      | none => badCase "failing"
   | _, _ => badCase "arity"
 
 end Driver.C01
